@@ -297,4 +297,13 @@ theorem fixpoint_eq_spec {G : Grammar} {k : Nat} {V : FirstVec} (hk : 1 ≤ k) (
     rw [take_eq_self_of_wf htwf] at htw
     exact ⟨w, hw, htw⟩
 
+
+/-- the (model of the) public `first_k` returns exactly the declarative sets -/
+theorem first_k_eq_spec_aux {G : Grammar} {fuel k : Nat} {V : FirstVec} (hno : NoEoi G)
+    (hprod : Productive G) (hnlr : NoLeftRec G) (hk : 1 ≤ k) (h : firstCode G fuel k = some V) :
+    (∀ A t, t ∈ envGet V.nts A ↔ FirstK G k [.n A] t) ∧
+    (∀ i p, G.prods[i]? = some p → ∀ t, t ∈ V.prods.getD i [] ↔ FirstK G k p.rhs t) := by
+  obtain ⟨hwf, hfix⟩ := firstCode_fix hno k V h
+  exact fixpoint_eq_spec hk hno hprod hnlr hwf hfix
+
 end ParolModel.KS
